@@ -159,7 +159,7 @@ func (c *ctx) wFK() FK {
 func (c *ctx) wTable(name string) Table {
 	t := Table{Name: name, WithoutRowID: c.r.Chance(1, 5), Strict: c.r.Chance(1, 5)}
 	if c.p.charset {
-		t.Charset, t.Collation = sp("utf8mb4"), sp("utf8mb4_0900_ai_ci")
+		t.Charset, t.Collation = sp(c.p.tblCS), sp(c.p.tblCO)
 	}
 	perm := c.r.Intn(24)
 	cols := append([]string(nil), wCols...)
@@ -321,6 +321,9 @@ func (c *ctx) wild(thorough bool) {
 	}
 	if c.p.scoped {
 		n /= 4
+	}
+	if c.lite {
+		n /= 5
 	}
 	for k := 0; k < n; k++ {
 		var from, to Schema
